@@ -125,8 +125,7 @@ def _(gene_regions, cn_region, genome):
 
 
 # C06: what Sample._parse_read records for ONE insertion operation of the CIGAR string (slice inside the
-# `elif op == 1:` branch of its CIGAR loop). The deletion branch (`for i in range(size): muts[start + i, '-'].append`)
-# needs keyed appends inside a summarised loop, which the VC generator does not support: bounded native contract only.
+# `elif op == 1:` branch of its CIGAR loop).
 
 @contract("aldy.sam.Sample._parse_read@insertion-op", native=False)
 def _(self, size, start, s_start, seq, qual, mq, prev_q, norm, muts, phase, dump_arr, bin_quality):
@@ -150,3 +149,32 @@ def _(self, size, start, s_start, seq, qual, mq, prev_q, norm, muts, phase, dump
     ensures(result[0] == start and result[1] == s_start + size, label="cursors")
     modifies(muts, phase, dump_arr, self._indel_sites)
 
+
+
+# C06: what Sample._parse_read records for ONE deletion operation (slice inside the `if op == 2:` branch of its CIGAR
+# loop; the keyed appends of its range loop are summarised as "the cell of position p gets one more element").
+
+@contract("aldy.sam.Sample._parse_read@deletion-op", native=False)
+def _(self, size, start, s_start, mq, prev_q, norm, muts, phase, dump_arr, bin_quality):
+    types(self="Sample", size="int", start="int", s_start="int", mq="float", prev_q="float",
+          norm="DefaultDict[int, List[Tuple[float, float]], 'list']",
+          muts="DefaultDict[Tuple[int, str], List[Tuple[float, float]], 'list']",
+          phase="Dict[int, str]", dump_arr="List[Tuple[int, str]]", bin_quality="Callable[[float], float]")
+    requires(size >= 1, mq >= 0, prev_q >= 0, gcat_lookup_wf(self.gene))
+    # long-read indel bookkeeping (Sample._realign_indels): every equivalence points at a site with its two counters
+    requires(forall(lambda p=int, o=str: implies((p, o) in self._indel_sites_eqs, self._indel_sites_eqs[(p, o)] in self._indel_sites
+                                                 and len(self._indel_sites[self._indel_sites_eqs[(p, o)]]) == 2)))
+    # C06: "matches, mismatches and deleted bases each count once": every deleted reference base gets exactly one
+    # observation (under the deleted-base allele '-' of its position) ...
+    ensures(forall(lambda p=int: implies(start <= p and p < start + size,
+                                         (p, "-") in muts and len(muts[(p, "-")]) == old(len(muts[(p, "-")]) if (p, "-") in muts else 0) + 1)),
+            label="every-deleted-base-counted-once")
+    # ... and none is also counted as a reference base
+    ensures(forall(lambda p=int: implies(p in old(norm), p in norm and norm[p] == old(norm[p]))), label="deleted-bases-not-counted-as-reference")
+    ensures(forall(lambda p=int: (p in norm) == (p in old(norm))), label="no-reference-entry-created")
+    ensures(forall(lambda p=int, o=str: implies((p, o) in old(muts) and not (o == "-" and start <= p and p < start + size),
+                                                (p, o) in muts and muts[(p, o)] == old(muts[(p, o)]))),
+            label="other-cells-untouched")
+    # the reference cursor moves over the deleted bases, the read cursor does not
+    ensures(result[0] == start + size and result[1] == s_start, label="cursors")
+    modifies(muts, phase, dump_arr, self._indel_sites)
